@@ -187,10 +187,50 @@ def c17_oracle_selfcheck(res, rng):
                      dict(type="cdf", x=x))
 
 
+def directed_leaf_points(res):
+    """the static tie of v, w, vt, wt is not established for the current source: every numeric literal of the edited leaf functions is
+    probed as an argument, as a gap to the margin, and (if in (0, 1)) as a level of the Gaussian masses the guards test"""
+    import gentie
+    consts, _ = gentie.harvest()
+    pm = wl_common.phi_major
+    ts = [1e-8, 1e-6, 7e-6, 1e-4, 1e-3, 1e-2]
+    pts = []
+    for c in sorted(consts):
+        for t in ts:
+            xs = []
+            if 0 < abs(c) <= 80:
+                xs += [c, -c, c + t, c - t, -c + t, -c - t]
+            if 0 < c < 1:
+                try:
+                    u = bisect(pm, -40.0, 10.0, c)
+                    xs += [u + t, -(u + t), u, -u]
+                    b = lambda xx: -(pm(t - xx) - pm(-t - xx))
+                    if -b(0.0) > c:
+                        xb = bisect(b, 0.0, 40.0, -c)
+                        xs += [xb, -xb]
+                except Exception:  # noqa: BLE001
+                    pass
+            for x0 in xs:
+                if abs(x0) <= 40:
+                    for x in ulp_neighbourhood(x0, 3):
+                        if abs(x) <= 40:
+                            pts.append((x, t))
+    res.count("static_tie_directed_leaf_points", len(pts))
+    return pts[:20000]
+
+
 def c17(res):
     rng = random.Random(res.seed)
     c17_oracle_selfcheck(res, rng)
     pts = sweep_points(res, rng)
+    import gentie
+    st = gentie.note(res, "v, w, vt, wt")
+    if not st["leaves_ok"] and res.shard == 0:
+        dpts = directed_leaf_points(res)
+        c17_points(res, dpts)
+        import exact as _exact
+        sub_ = dpts[:: max(1, len(dpts) // 600)]
+        _exact.exact_leaf_points(res, [(fn, p[0], p[1]) for p in sub_ for fn in ("v", "w", "vt", "wt")], "C17 code-shaped leaves (directed by the literals of the edited source)")
     for p in pts[:: max(1, len(pts) // 2000)]:
         res.case(dict(x=p[0], t=p[1]))
     res.evaluations = len(pts)
